@@ -97,7 +97,7 @@ class World:
         self.par = {t["name"]: t for t in case["tokens"]}
         self.actions = []
         self.broker = Broker(allow_negative_balance=bool(case.get("allow_negative", False)), record_action_callback=self._on_action)
-        self.market = AaveV3Market(MarketInfo("aave", MarketTypeEnum.aave_v3), risk_file(case["tokens"]), list(self.tok.values()))
+        self.market = AaveV3Market(MarketInfo("aave", MarketTypeEnum.aave_v3), risk_file(case["tokens"]), [self.tok[n] for n in case.get("listed") or self.tok])
         self.broker.add_market(self.market)
         for n, a in case["wallet"].items():
             self.broker.set_balance(self.tok[n], D(a))
@@ -170,6 +170,14 @@ class World:
         t = self.tok[tok]
         if base == "abs":
             return D(f)
+        if base in ("debtq", "supplyq"):
+            # the whole position as the caller reads it, rounded to the token's 18 decimals (up or down)
+            import decimal
+
+            held = (m._borrows[t].base_amount * D(self.rows[tok]["bi"]) if t in m._borrows else D(1)) if base == "debtq" else (m._supplies[t].base_amount * D(self.rows[tok]["li"]) if t in m._supplies else D(1))
+            with decimal.localcontext() as c:
+                c.prec = 60
+                return D(held).quantize(D("1e-18"), rounding={"up": decimal.ROUND_UP, "down": decimal.ROUND_DOWN}[f])
         f = D(f)
         if base == "wallet":
             return self.broker.assets[t].balance * f if t in self.broker.assets else D(0)
